@@ -54,8 +54,8 @@ CFG = dict(
            e2("mach4", _T, 4, 300, part="machine", depth=4, cfg="full", nshards=4),
            e2("exh3", _T, 2, 300, part="exh", depth=3, cfg="asym+chain", nshards=2),
            e2("sess3", _T, 2, 300, part="exh", depth=3, cfg="asym", mode="session", nshards=2),
-           e2("rnd", _T, 2, 30, part="rnd", count=2500),
-           e2("conc", _T, 2, 60, part="conc", count=2500)],
+           e2("rnd", _T, 2, 120, part="rnd", count=2500),
+           e2("conc", _T, 2, 240, part="conc", count=2500)],
     # thorough: everything unreduced at depth 4, depth 5 on 3 peers x 2 families (coupled) and on the
     # full alphabet (bare machine)
     thorough=[e2("exh4", _T, 16, 1500, part="exh", depth=4, cfg="full+asym", nshards=16),
